@@ -8,6 +8,7 @@ def run():
     ctx = vlib.Ctx("setup", "quick", 0)
     ok = ctx.translate()
     res = ctx.coq_build(["all"], timeout=3000) if False else None
+    vlib.gen_coqproject()
     with vlib.BuildLock():
         rc, out, dt = vlib.sh("coq_makefile -f _CoqProject -o Makefile && make -j16", cwd=vlib.COQ, timeout=3000)
     ctx.log(f"coq full build rc={rc} in {dt:.1f}s")
